@@ -76,7 +76,7 @@ def cases(tier, seed):
     out = []
     block = 48
     for idx in range(0, len(combos), block):
-        out.append(dict(id='combo-%d' % idx, start=idx, stop=idx + block, variants=(40 if tier == 'thorough' else 1), seed=seed))
+        out.append(dict(id='combo-%d' % idx, start=idx, stop=idx + block, variants=(160 if tier == 'thorough' else 1), seed=seed))
     out.append(dict(id='frag-history', kind='frag-history', start=0, stop=0, variants=1, seed=seed))
     return out
 
